@@ -609,7 +609,7 @@ func buildProgIndex(c *core.Ctx) {
 					} else {
 						callee = cc.Value
 						if sc := cc.StaticCallee(); sc != nil {
-							if fn.Synthetic != "" {
+							if fn.Synthetic != "" && fn.Synthetic != "package initializer" {
 								wrapped[fn] = append(wrapped[fn], origin(sc))
 							} else if !isInstance(fn) {
 								ix.callers[origin(sc)] = append(ix.callers[origin(sc)], ci)
